@@ -170,6 +170,61 @@ func runC01(r *engine.Run) {
 		}
 	})
 
+	// ---- frame values obtained by decoding and then changing exported fields
+	// (a frame value is its exported fields; hidden state left over from the
+	// decode must not leak into the next encoding)
+	spM := (&engine.Space{}).Dim("mtype", 4).Dim("decoded foptslen", 16).Dim("new foptslen", 16).Dim("fport{absent,1}", 2).Dim("new fopts form", 2)
+	r.PartDims("data/modified-after-decode", spM.Desc(), spM.N(), func(c *engine.Case) {
+		var ch [5]int
+		spM.Decode(c.Index, ch[:])
+		f := spec.DataFrame{MType: byte(2 + ch[0]), DevAddr: 0x01020304, FCnt: 9, ADR: true}
+		f.FOpts = fillBytes(ch[1], 0xB0)
+		if ch[3] == 1 {
+			f.HasPort, f.FPort, f.FRM = true, 10, fillBytes(4, 0x11)
+		}
+		wire := append(f.Msg(), 1, 2, 3, 4)
+		var p lorawan.PHYPayload
+		if err := p.UnmarshalBinary(wire); err != nil {
+			c.Fail("data/decoder-refuses-spec-valid-frame", fmt.Sprintf("%x: %v", wire, err), nil)
+			return
+		}
+		mp := p.MACPayload.(*lorawan.MACPayload)
+		g := f
+		var newCmds []spec.Cmd
+		if ch[4] == 1 && ch[2] > 0 {
+			newCmds = spec.Compose(f.Uplink(), ch[2], int(c.Index%5))
+			g.FOpts = spec.CmdBytes(newCmds)
+			l, _ := libCmds(f.Uplink(), newCmds)
+			mp.FHDR.FOpts = l
+		} else {
+			g.FOpts = fillBytes(ch[2], 0x5C)
+			if ch[2] == 0 {
+				mp.FHDR.FOpts = nil
+			} else {
+				mp.FHDR.FOpts = []lorawan.Payload{&lorawan.DataPayload{Bytes: append([]byte(nil), g.FOpts...)}}
+			}
+		}
+		g.FCnt = 0x00020003
+		mp.FHDR.FCnt = g.FCnt
+		got, err := p.MarshalBinary()
+		want := append(g.Msg(), 1, 2, 3, 4)
+		if err != nil {
+			c.Fail("data/modified-after-decode/encoder-refuses", fmt.Sprintf("decoded %x, FOpts replaced by %d bytes: %v", wire, ch[2], err), nil)
+			return
+		}
+		c.NonTrivial()
+		if !bytes.Equal(got, want) {
+			c.Fail("data/modified-after-decode/bytes-differ-from-spec", fmt.Sprintf("decoded %x, then FOpts replaced by %x and FCnt set: encodes to %x, specification %x", wire, g.FOpts, got, want), nil)
+			return
+		}
+		var q lorawan.PHYPayload
+		if err := q.UnmarshalBinary(got); err != nil {
+			c.Fail("data/modified-after-decode/decoder-refuses", err.Error(), nil)
+		} else if msg := c01Compare(&q, g); msg != "" {
+			c.Fail("data/modified-after-decode/decoded-frame-differs", msg, nil)
+		}
+	})
+
 	// ---- MHDR packing
 	r.PartDims("mhdr", []string{"major:4", "mtype:8"}, 32, func(c *engine.Case) {
 		major, mt := byte(c.Index%4), byte(c.Index/4)
